@@ -37,10 +37,12 @@ check('C02', TV,
       '(adversary eliminated exactly) for which no value of the block\'s local columns satisfies the block" is unsat, '
       'i.e. proj(P) contains S; with C01 the two sets are equal in the user\'s variables incl. LDR coefficient '
       'columns. In addition the exact optimum of P and of "min t s.t. S" (z3 Optimize, rationals) are equal and equal '
-      'to what solve() reports. SOC-type sets: no S-point beats the reported optimum by more than delta (QF_NRA).',
+      'to what solve() reports. SOC-type / mixed sets: no S-point beats the reported optimum by more than delta, decided in '
+      'QF_LRA over a scenario relaxation S_K of S (every robust row instantiated at exact rational members of the set, '
+      'membership confirmed by z3; points chosen by a cutting-plane loop), QF_NRA as fall-back.',
       'Trusted as C01. Set equality only for polyhedral sets; for ball/ellipsoid/mixed sets only the optimum of the '
       'declared objective is decided (stretch obligations may be undecided). Family sets are bounded/non-empty.',
-      'SMT exists-forall LRA projection per block + exact LRA optimisation (z3 Optimize) + QF_NRA optimum sandwich',
+      'SMT exists-forall LRA projection per block + exact LRA optimisation (z3 Optimize) + QF_LRA optimum sandwich over a scenario relaxation (QF_NRA fall-back)',
       'DESIGN.md section 4 C02')
 
 check('C06', TV,
